@@ -441,8 +441,14 @@ class BitArray(Bits):
             pos = (pos,)
         v = 1 if value else 0
         if isinstance(pos, range):
-            self._bitstore.__setitem__(slice(pos.start, pos.stop, pos.step), v)
-            return
+            if len(pos) == 0:
+                return
+            if 0 <= pos[0] < len(self) and 0 <= pos[-1] < len(self):
+                # Every position is a valid non-negative index, so the range is equivalent to a slice.
+                first, last = (pos[0], pos[-1]) if pos.step > 0 else (pos[-1], pos[0])
+                self._bitstore.__setitem__(slice(first, last + 1, abs(pos.step)), v)
+                return
+            # Otherwise fall through and treat it like any other iterable (negative indices, range checks).
         for p in pos:
             self._bitstore[p] = v
 
